@@ -210,6 +210,7 @@ static void fill_real(vf_rng *r, int ct, double *v, size_t n)
         case 1: u = (u & 0x800FFFFFFFFFFFFFULL) | 1; break; /* subnormal */
         case 2: u = bits(DBL_MAX) | (u & 0x8000000000000000ULL); break;
         case 3: u = bits(1.0) | (u & 0x8000000000000000ULL); break;
+        case 4: u = 0; break; /* +0.0: with case 0, cells that COMPARE equal and differ in their bits (seeded change C09-N: a swap skipped when the mirrored cells compare equal) */
         default:
             if (((u >> 52) & 0x7FF) == 0x7FF) { u &= ~(1ULL << 62); } /* keep it finite */
             break;
